@@ -13,6 +13,9 @@ inductive Op where
   | bind (k : Key) (v : Val)
   /-- a binding written as a one-member block: the block header is resolved first (2380-2384) -/
   | bindBlock (k : Key) (v : Val)
+  /-- bindings made by a statement of a config text: the statement's location is recorded -/
+  | bindAt (k : Key) (v : Val) (loc : Loc)
+  | bindBlockAt (k : Key) (v : Val) (loc : Loc)
   | query (k : Key)
   | call (sel : Sel) (enter : List ScopeArg) (args : List Val) (kwargs : AList String Val)
   /-- the same call with real evaluation of references, macros and constants (Layer 2) -/
@@ -43,6 +46,7 @@ inductive Out where
   | names (l : List String)
   | body (outs : List Out)
   | events (l : List CallEvent)
+  | locs (l : List ((Scope × Sel) × String × Loc))
 deriving Inhabited
 
 /-- gin's own configurables: `gin.macro(value)`, `gin.constant()`, `gin.singleton(constructor)` -/
@@ -69,6 +73,14 @@ mutual
         | .ambiguous _ => (st, .err .keyError)
         | .none => (st, .err .valueError)
         | .one _ _ => match st.bind k v with
+          | .ok st' => (st', .ok) | .error e => (st, .err e)
+    | .bindAt k v loc => match st.bind k v (some loc) with
+        | .ok st' => (st', .ok) | .error e => (st, .err e)
+    | .bindBlockAt k v loc =>
+        match st.registry.getMatch k.sel with
+        | .ambiguous _ => (st, .err .keyError)
+        | .none => (st, .err .valueError)
+        | .one _ _ => match st.bind k v (some loc) with
           | .ok st' => (st', .ok) | .error e => (st, .err e)
     | .query k => match st.query k with
         | .ok v => (st, .value v) | .error e => (st, .err e)
@@ -108,6 +120,8 @@ mutual
           | "opstr" => .store (State.printable st.operative)
           | "config" => .store st.config
           | "log" => .events st.log
+          | "prov" => .locs (State.provenanceOf st st.config)
+          | "opprov" => .locs (State.provenanceOf st st.operative)
           | "registry" => .names (st.registry.keys.map (fun s => ".".intercalate s))
           | "constants" => .names (st.constants.keys.map (fun s => ".".intercalate s))
           | _ => .err (.other "bad-observe"))
